@@ -466,6 +466,18 @@ def run(ctx):
     ctx.ob("R09.12", "port_is_enabled: sub-tree or sibling", not bad12, site=A.where(flag12), detail={"pairs": len(pairs12), "mismatches": bad12[:5]},
            what="port_is_enabled decides where to look for the enabling port wrongly for %s: a sibling toggle whose name merely begins like the sub-tree's is looked up inside the sub-tree" % [(b_["port"], b_["enabled_by"]) for b_ in bad12[:4]])
 
+    # ---------------- R09.14: the name the walker is handed for an enabling toggle below a disabled sub-tree
+    ctx.rule("R09.14", "ENABLER-NAME: port_is_enabled, evaluated as a whole function on a byte memory for both of its callers (a tree's `self:` port, not relative to the parent; a sub-tree port, relative to the parent) with a toggle that says false, "
+             "hands the walker the toggle's collapsed absolute location and, as the name from the base ports, exactly the `enabled by` value inside that location (enabling names of 1, 2, 3 and 7 characters); a sibling toggle gets no walker call")
+    from ..rules import enablerwalk as EW
+    try:
+        bad14, n14 = EW.check(u)
+    except FD.Unknown as e:
+        raise AnalysisBroken("R09.14: port_is_enabled is not evaluable as a whole: %s" % e)
+    ctx.ob("R09.14", "port_is_enabled: walker call for the enabling toggle", not bad14, site=A.where(u.function("port_is_enabled")), detail={"cases": n14, "mismatches": bad14[:5]},
+           key="R09.14:%s" % (bad14[0]["case"].split(" ")[0] if bad14 else ""),
+           what="port_is_enabled hands the walker a wrong location / name for the enabling toggle: %s" % ["%s: %s, expected %s" % (b_["case"], b_["walker_calls"], b_["expected"]) for b_ in bad14[:3]])
+
     # ---------------- R09.7
     # ---- R09.13: only a null child object prunes a sub-tree
     ctx.rule("R09.13", "NULL-ONLY: after the recursion callback has stored the child's runtime object, walk_ports_recurse takes the sub-tree for absent exactly when that pointer is null - evaluated for a null pointer, "
